@@ -2,6 +2,8 @@ package props
 
 import (
 	"fmt"
+
+	"github.com/ipfs/go-cid"
 	"math/rand/v2"
 	"strings"
 
@@ -19,7 +21,7 @@ func init() {
 		ID:    "C01",
 		Level: "exploration",
 		Rule: "seeded scenarios: a rule-conforming chain of n links (quick n<=6, thorough n<=8; any subject; repeated principals / self-delegation) + 0..3 deviations drawn from {empty proofs, missing delegation, loader error, first audience != invoker, issuer(i) != audience(i+1), last link not self-issued, subject replaced / undefined at i, two links swapped, link duplicated, head/middle/tail truncated, chain rooted at a foreign subject}; every scenario is run with 5 invocation audiences {unset, subject, invoker, third party, a chain principal}; half of the scenarios go through seal -> container -> container.Reader as loader. " +
-			"Oracles: allowed => reference principal predicate; the five audience variants agree. " +
+			"Oracles: allowed => reference principal predicate; the five audience variants agree; history independence: the same invocation token checked with the full loader, then a loader that lost one delegation, then the full loader again gives allowed / denied / allowed. " +
 			"non-trivial = >=1 delegation and >=1 deviation or n>=2; distinct = (normalised principal pattern, deviation list, wire mode).",
 		Assumptions: []string{
 			"reference predicate chain.PrincipalsOK (30 lines, from the property text)",
@@ -30,7 +32,7 @@ func init() {
 		MinEvals:    floor(15000, 400000),
 		MinDistinct: floor(1500, 30000),
 		RequiredCells: func(tier string) []string {
-			cells := []string{"deny/empty/-", "allow/audience=unset", "allow/audience=third", "hook"}
+			cells := []string{"history/full-depleted-full", "deny/empty/-", "allow/audience=unset", "allow/audience=third", "hook"}
 			for _, rule := range []string{"unloadable", "link", "subject"} {
 				for _, pos := range []string{"first", "middle", "last"} {
 					cells = append(cells, "deny/"+rule+"/"+pos)
@@ -258,6 +260,28 @@ func runC01(w *mon.W) {
 					fmt.Sprintf("outcome depends on the invocation audience: unset -> allowed=%v (%s), %s -> allowed=%v (%s)", outcomes[0], errs[0], variants[vi].name, outcomes[vi], errs[vi]), d)
 			}
 		}
+		// history independence: the verdict for (token, loader) may not depend on earlier calls on
+		// the same token object - full loader, then a loader that lost one delegation, then the
+		// full one again
+		if want && len(s.Links) > 0 && it%3 == 0 {
+			if inv, err := s.MakeInvocation(b, s.Audience, r); err == nil {
+				e1 := allowed(inv, b.Loader, hook)
+				gone := b.Cids[r.IntN(len(b.Cids))]
+				e2 := allowed(inv, &withoutLoader{inner: b.Loader, gone: gone}, hook)
+				e3 := allowed(inv, b.Loader, !hook)
+				w.Eval(3)
+				w.Cover("history/full-depleted-full")
+				if e1 != nil || e2 == nil || e3 != nil {
+					d := s.Describe()
+					d["sequence"] = []string{"full loader: " + errStr(e1), "loader without " + gone.String() + ": " + errStr(e2), "full loader: " + errStr(e3)}
+					cls := "depleted-loader-allowed"
+					if e2 != nil {
+						cls = "full-loader-denied"
+					}
+					w.Violate("history-dependent/"+cls, fmt.Sprintf("three checks of the same invocation token: full loader -> %s, loader missing one delegation -> %s, full loader -> %s", errStr(e1), errStr(e2), errStr(e3)), d)
+				}
+			}
+		}
 		if hook {
 			w.Cover("hook")
 		}
@@ -281,4 +305,17 @@ func runC01(w *mon.W) {
 			w.Sample(d)
 		}
 	}
+}
+
+// withoutLoader hides one delegation of an inner loader.
+type withoutLoader struct {
+	inner delegation.Loader
+	gone  cid.Cid
+}
+
+func (l *withoutLoader) GetDelegation(c cid.Cid) (*delegation.Token, error) {
+	if c.Equals(l.gone) {
+		return nil, delegation.ErrDelegationNotFound
+	}
+	return l.inner.GetDelegation(c)
 }
